@@ -160,6 +160,37 @@ Proof.
   repeat split; auto. rewrite <- K. apply in_map_iff. now exists (r, D_ok st f).
 Qed.
 
+(* ---- the 250/550 replies of DATA say what each delivery did ---- *)
+
+Lemma deliver_keys m folder : forall acc d, map fst (fst (deliver_to_multiple d acc m folder)) = acc.
+Proof.
+  induction acc as [|x l IH]; intros d0; [reflexivity|].
+  cbn [deliver_to_multiple]. destruct (deliver_message d0 x m folder) as [res d1].
+  specialize (IH d1). destruct (deliver_to_multiple d1 l m folder). cbn [fst map] in *. now f_equal.
+Qed.
+
+(** even with the same address given several times (the results map is keyed
+    by address and keeps the last value) every recipient's reply is 250 exactly
+    when ITS delivery filed the message — for every input *)
+Lemma replies_truthful cfg d acc m replies :
+  do_reply (handle_data cfg d acc m) = DR_per replies ->
+  zip_outcomes replies (do_deliveries (handle_data cfg d acc m))
+    = map (fun kv => to_mo (snd kv)) (do_deliveries (handle_data cfg d acc m)) /\
+  map fst (do_deliveries (handle_data cfg d acc m)) = acc.
+Proof.
+  unfold handle_data. destruct acc as [|a acc']; [discriminate|].
+  set (acc := a :: acc').
+  destruct (max_size cfg <? m_size m); [discriminate|].
+  destruct (negb (m_parse_ok m)); [discriminate|].
+  pose proof (all_results m (default_folder cfg) acc d) as AR.
+  pose proof (deliver_keys m (default_folder cfg) acc d) as K.
+  destruct (deliver_to_multiple d acc m (default_folder cfg)) as [results d'] eqn:ED.
+  cbn [do_reply do_deliveries fst] in *. intros H. injection H as <-.
+  split; [|exact K].
+  pose proof (reply_consistent (deliv_ok m (default_folder cfg) d) results AR results (fun kv H => H)) as E.
+  unfold acc in *. rewrite K in E. exact E.
+Qed.
+
 (* ---- refutation witnesses ---- *)
 
 Definition w_cfg (ru qe : bool) (ql : Z) : config :=
